@@ -68,6 +68,11 @@ def select(fn, sel):
     if kind == "assign":                # k-th assignment whose (first) target prints as `target`
         _, target, k = sel
         hits = [st.value for st in sts if isinstance(st, ast.Assign) and ast.unparse(st.targets[0]) == target]
+    elif kind == "slice_upper":         # k-th assignment to `target` of the form `x[:<upper>]`: the upper bound
+        _, target, k = sel
+        hits = [st.value.slice.upper for st in sts if isinstance(st, ast.Assign) and ast.unparse(st.targets[0]) == target
+                and isinstance(st.value, ast.Subscript) and isinstance(st.value.slice, ast.Slice) and st.value.slice.upper is not None
+                and st.value.slice.lower is None]
     elif kind == "mask":                # k-th assignment `name[<mask>] = ...`: the mask expression
         _, name, k = sel
         hits = [st.targets[0].slice for st in sts if isinstance(st, ast.Assign) and isinstance(st.targets[0], ast.Subscript)
@@ -83,6 +88,13 @@ def select(fn, sel):
     elif kind == "return":
         _, k = sel
         hits = [st.value for st in sts if isinstance(st, ast.Return) and st.value is not None]
+    elif kind == "ifassign":            # k-th `if`/`else` whose arms assign to `target`: ("ite", test, value, value)
+        _, target, k = sel
+        hits = []
+        for st in sts:
+            if isinstance(st, ast.If) and len(st.body) == 1 and len(st.orelse) == 1 and \
+                    all(isinstance(b, ast.Assign) and ast.unparse(b.targets[0]) == target for b in (st.body[0], st.orelse[0])):
+                hits.append(("ite", st.test, st.body[0].value, st.orelse[0].value))
     elif kind == "ifchain":             # k-th `if` statement with its elif / else arms: [(test | None, [appended items])]
         _, k = sel
         ifs = [st for st in sts if isinstance(st, ast.If)]
@@ -141,12 +153,15 @@ def lean_chain(chain, vm):
     return out + "[]"
 
 
-CALLS = {"get_relation": lambda a, b: "(getRelation %s.cv %s.cv %s.f %s.f)" % (a, b, a, b)}
+CALLS = {"get_relation": lambda a, b: "(getRelation %s.cv %s.cv %s.f %s.f)" % (a, b, a, b),
+         "has_feasible": lambda a: "(%s.any (·.feas))" % a}
 
 
 def lean_expr(e, vm):
     if isinstance(e, list):
         return lean_chain(e, vm)
+    if isinstance(e, tuple) and e and e[0] == "ite":
+        return "(if %s = true then %s else %s)" % (lean_expr(e[1], vm), lean_expr(e[2], vm), lean_expr(e[3], vm))
     s = ast.unparse(e)
     if s in vm:
         return vm[s]
@@ -247,6 +262,28 @@ SPECS += [
      "(nS : Nat) (f : List Nat) (fs : List (List Nat)) (have_ : Nat) (h : have_ + f.length > nS) : "
      "nRemoveSeq nS (f :: fs) have_ = (fun acc : List Nat => {e}) (List.replicate have_ 0) :: nRemoveSeq nS fs nS",
      "by simp [nRemoveSeq, h]"),
+]
+DIFF = "pymoode/algorithms/base/differential.py"
+SPECS += [
+    ("set_optimum", ["C08"], DIFF, "DifferentialEvolution._set_optimum", ("ifassign", "self.opt", 0),
+     {"self.pop": "pop", "self.pop[[np.argmin(self.pop.get('CV'))]]": "(argminCv pop).toList",
+      "self.pop[self.pop.get('rank') == 0]": "(pop.filter (fun i => rank i.id == some 0))"},
+     "(pop : List (IndM α)) (rank : Nat → Option Nat) : setOptimum pop rank = {e}",
+     "by cases h : pop.any (·.feas) <;> simp [setOptimum, h]"),
+]
+CVM = {"len(survivors)": "(inner + acc)", "len(front)": "f", "n_survive": "nS", "n_remaining": "room"}
+SPECS += [
+    ("constr_room", ["C16", "C03"], RNC, "ConstrRankAndCrowding._do", ("assign", "n_remaining", 0),
+     {"len(survivors)": "inner", "n_survive": "nS"},
+     "(nS inner : Nat) : {e} = nS - inner", "rfl"),
+    ("constr_room_test", ["C16", "C03"], RNC, "ConstrRankAndCrowding._do", ("if", 3), CVM,
+     "(room : Nat) : {e} = decide (room > 0)", "rfl"),
+    ("constr_fill_cond", ["C16", "C03"], RNC, "ConstrRankAndCrowding._do", ("if", 4), CVM,
+     "(nS inner acc f : Nat) (h : inner ≤ nS) : {e} = decide (acc + f > nS - inner)", "decide_eq_decide.mpr (by omega)"),
+    ("constr_fill_cut", ["C16", "C03"], RNC, "ConstrRankAndCrowding._do", ("slice_upper", "I", 0), CVM,
+     "(nS inner acc : Nat) (h : inner ≤ nS) : {e} = (nS - inner) - acc", "by omega"),
+    ("rnc_cut", ["C03", "C15"], RNC, "RankAndCrowding._do", ("slice_upper", "I", 0), {"n_remove": "k"},
+     "(k : Int) : {e} = -k", "rfl"),
 ]
 # extra selections needed by multi-term statements: name -> [(placeholder, selector, vm)]
 EXTRA = {
